@@ -14,13 +14,16 @@
       on a journey end from that day and a trip end exactly when the trip length is exceeded;
     - while only outbound legs have been reported nothing is marked except the newest leg once the
       interval has passed since it landed.
-    PARTIAL in one respect: the statements are about one Update on a history of the stated shape
-    (which AddFlight of in-order flights and the previous Update produce: C07 theorems and the
-    correspondence); the induction over the whole day-by-day sequence of check-ins and updates is
-    exercised by the harness (every day of every generated itinerary, model and real code) rather
-    than proved. *)
+    The whole calendar is covered by induction over the days ([C06_every_day]): flights reported in
+    order and before they depart, one update per day going forward, the trip within its length limit
+    while legs are still to come.  After every daily update the history holds exactly [expected]: while
+    only outbound legs are reported, those legs (the newest one marked once the interval has passed
+    since it landed - which, by the gap hypothesis, can only happen to the last outbound leg); once
+    the return has begun, the last outbound leg as a journey end, the return legs, and the newest one
+    as [final_mark] says; after the trip has been closed nothing changes any more.
+    [C06_only_these_markers] states the first clause of the property for every day. *)
 From Coq Require Import ZArith List Bool.
-From Flap Require Import Model.Num Model.NumZ Model.TripHistory Proofs.ItineraryP.
+From Flap Require Import Model.Num Model.NumZ Model.TripHistory Proofs.THOrder Proofs.ItineraryP Proofs.ItineraryDaysP.
 Import ListNotations.
 Open Scope Z_scope.
 
@@ -52,6 +55,42 @@ Theorem C06_update_while_outbound :
   exists dy fy, update h p now = inl ({| entries := newest_mark p now x :: rev A ++ rest; oc := 0 |}, dy, fy).
 Proof. exact @update_outbound. Qed.
 Print Assumptions C06_update_while_outbound.
+
+(** the day-by-day statement.  [run h todo days]: each day first reports the next flights of [todo], then
+    runs the daily update; [days_ok]: the calendar hypotheses; [Good done todo now h]: [h] holds
+    [expected now done] followed by the older flights, is ordered, and has no pending changes *)
+Theorem C06_every_day :
+  forall (N : NumOps) p (A : list (flight N)) x B y rest0,
+  out_and_back p A x B y -> fresh (itinerary A x B y) -> asc_from 1 (itinerary A x B y) ->
+  (length (itinerary A x B y) < MaxFlights)%nat -> stop_at rest0 -> length rest0 = MaxFlights ->
+  (forall f, In f (itinerary A x B y) -> fstart (getf rest0 0) <= fstart f) ->
+  forall days done todo now (h : hist N),
+  Good p A x B y rest0 done todo now h -> days_ok p A x done todo now days ->
+  let '(done', todo', now') := progress done todo now days in
+  Good p A x B y rest0 done' todo' now' (run p h todo days).
+Proof. exact @run_good. Qed.
+Print Assumptions C06_every_day.
+
+Theorem C06_before_the_first_flight :
+  forall (N : NumOps) p (A : list (flight N)) x B y rest0,
+  out_and_back p A x B y -> fresh (itinerary A x B y) -> asc_from 1 (itinerary A x B y) ->
+  (length (itinerary A x B y) < MaxFlights)%nat -> length rest0 = MaxFlights ->
+  (forall f, In f (itinerary A x B y) -> fstart (getf rest0 0) <= fstart f) ->
+  forall h0 : hist N, ordered h0 -> entries h0 = rest0 -> oc h0 = 0%nat ->
+  Good p A x B y rest0 [] (itinerary A x B y) 0 h0.
+Proof. exact @good_start. Qed.
+Print Assumptions C06_before_the_first_flight.
+
+Theorem C06_only_these_markers :
+  forall (N : NumOps) p (A : list (flight N)) x B y rest0,
+  out_and_back p A x B y -> fresh (itinerary A x B y) ->
+  forall done todo now (h : hist N),
+  Good p A x B y rest0 done todo now h ->
+  exists stored, entries h = stored ++ rest_of rest0 done /\ expected p A x B y now done stored /\
+    forall f, In f stored ->
+      et f = Fl \/ (f = set_et x JEnd) \/ (todo = [] /\ f = final_mark p now (first_start A x) y).
+Proof. exact @markers_every_day. Qed.
+Print Assumptions C06_only_these_markers.
 
 (** non-vacuity: a 2+2-leg itinerary at realistic epoch seconds meets the hypotheses *)
 Definition ex_leg (s e a b : Z) : flight NumZ := mkFlight (N:=NumZ) Fl s e a b 500.
